@@ -1,6 +1,7 @@
 package rules
 
 import (
+	"go/token"
 	"strings"
 
 	"golang.org/x/tools/go/ssa"
@@ -16,7 +17,50 @@ func init() {
 		c12R1(c)
 		c12R2(c)
 		c12R3(c)
+		c12R4(c)
 	})
+}
+
+// c12R4: the bound on key regeneration reaches the caller only if a failed
+// regeneration ends the read loop: on the error edge of handleAuthKeyNotFound
+// the loop must not get back to Recv (a timed-out exchange that is swallowed
+// leaves Conn.Run blocked on a context without deadline).
+func c12R4(c *engine.Ctx) {
+	fn := c.MustFunc("C12.R4", "mtproto", "Conn.readLoop")
+	if fn == nil {
+		return
+	}
+	var recv ssa.CallInstruction
+	for _, call := range engine.Calls(fn) {
+		if call.Common().IsInvoke() && call.Common().Method.Name() == "Recv" {
+			recv = call
+		}
+	}
+	n := 0
+	for _, call := range engine.CallsTo(fn, false, "(*mtproto.Conn).handleAuthKeyNotFound") {
+		h, _ := call.(*ssa.Call)
+		if h == nil || recv == nil {
+			continue
+		}
+		n++
+		fail := engine.EdgesWhere(fn, func(k engine.Cmp) bool {
+			return engine.CallOf(k.X) == h && engine.IsNil(k.Y) && k.Op == token.NEQ
+		})
+		ok := len(fail) > 0
+		for e := range fail {
+			if (engine.PathQuery{Fn: fn, FromBlk: e[1]}).Reaches(recv) {
+				ok = false
+			}
+			// and it ends with a non-nil error
+			for _, r := range engine.Returns(fn) {
+				if (engine.PathQuery{Fn: fn, FromBlk: e[1]}).Reaches(r) && engine.ReturnKind(r, 0) == "nil" {
+					ok = false
+				}
+			}
+		}
+		c.Check(ok, "C12.R4", "readLoop/failed-regeneration-ends-the-loop#"+ordinalCall(fn, call), call.Pos(), "when handleAuthKeyNotFound fails (for instance by the exchange timeout) readLoop must return that error; it must not reach Recv again (error edges found: %d)", len(fail))
+	}
+	c.Floor("C12.R4", 1, n)
 }
 
 func ctxFromTimeout(v ssa.Value) (bool, string) {
